@@ -76,6 +76,11 @@ func (s *MergeExp) HasRef() bool {
 	if s.ForkNode != nil {
 		return true
 	}
+	if s.MergeOver != nil && !s.MergeOver.KnownLength() {
+		// Even if the value is constant, how many copies of it there will
+		// be depends on the upstream value being mapped over.
+		return true
+	}
 	return s.Value.HasRef()
 }
 
